@@ -9,9 +9,11 @@ from framework.registry import target, job, PROPS, COMMON_ASSUME
 #    is a fixed linear operator that is extracted on unit vectors and compared with the dense formula of the
 #    documentation (docs/components/preconditioners.rst); tolerances are first-order rounding bounds computed from
 #    the norms of the blocks involved (stated next to each oracle in the harness).
-#  * CPR-DRS: the property text gives no formula for the dynamic row sum; the check demands what the docs state
-#    (weights are the given weight or 0, the pressure equation keeps its weight, zero thresholds drop nothing) and
-#    that the pressure matrix is the weighting of A by the transfer operator actually used.
+#  * CPR-DRS: sub-check cpr_drs_rule evaluates the dynamic-row-sum rule densely (eps_dd diagonal-dominance test and eps_ps
+#    pressure-coupling test per non-pressure equation, absent entries count as 0, decisions closer than 1e-12 relative are
+#    not judged) on >= 40 cells incl. cells lacking the in-cell pressure-column entry, and builds the same object with
+#    1, 4 and 8 OpenMP threads (weights, pressure matrix, action bitwise equal) -- catches seeded C09-5.  The older cpr_drs
+#    sub-check keeps the weaker documented semantics (weight or 0, zero thresholds drop nothing, App = Fpp A).
 #  * scalar-vs-block CPR is compared to a rounding bound (the property says "identically"; a correct block
 #    implementation may order the b x b elimination differently); bitwise agreement is recorded as an observation.
 #  * input rows are sorted (unsorted rows are C17 / finding F13).
@@ -20,12 +22,14 @@ def c18_jobs(tier):
     q = tier == 'quick'
     return [job('composite-plain-t1', 'c18', 'plain', threads=1, shards=8, timeout=3600),
             job('composite-asan-t1', 'c18', 'asan', threads=1, shards=8, timeout=5400),
-            job('composite-plain-t4', 'c18', 'plain', threads=4, shards=2, args=['--sub', 'schur_exact,cpr,deflated', '--stride=%d' % (3 if q else 5)], timeout=3600)]
+            job('composite-plain-t4', 'c18', 'plain', threads=4, shards=2, args=['--sub', 'schur_exact,cpr,cpr_drs,deflated', '--stride=%d' % (3 if q else 5)], timeout=3600),
+            job('drs-rule-plain-t4', 'c18', 'plain', threads=4, shards=2, args=['--sub', 'cpr_drs_rule'], timeout=3600),
+            job('drs-rule-plain-t8', 'c18', 'plain', threads=8, args=['--sub', 'cpr_drs_rule,cpr_drs', '--stride=2'], timeout=3600)]
 PROPS['C18'] = dict(
     level='exploration', jobs=c18_jobs,
-    rule='G8 systems from seeded generators: saddle-point matrices [[A,B1],[B2,C]] (6..40 unknowns, A dominant, B2 = B1^T or independent, C absent / -cI / dominant / explicitly stored zero diagonal) scattered by interleaved, prefix, suffix and random pressure masks given as struct, pattern string or pointer, all of type 1/2 x adjust_p 0/1/2 x simplec_dia x approx_schur; multi-phase block systems (block size 2..4, 2..14 cells, optional unstructured tail with active_rows) for cpr / cpr_drs with identity, SPAI-0 and exact global stage, thresholds and weights; 5-point / 9-point / 7-point diffusion and upwind convection-diffusion (200..1500 unknowns) with 1..5 deflation vectors for deflated_solver with AMG, SPAI-0 and identity preconditioners and CG / BiCGStab. Every case is non-trivial (np, nu > 0; at least two cells); distinct = distinct (sub-check, descriptor) hash.',
+    rule='G8 systems from seeded generators: saddle-point matrices [[A,B1],[B2,C]] (6..40 unknowns, A dominant, B2 = B1^T or independent, C absent / -cI / dominant / explicitly stored zero diagonal) scattered by interleaved, prefix, suffix and random pressure masks given as struct, pattern string or pointer, all of type 1/2 x adjust_p 0/1/2 x simplec_dia x approx_schur; multi-phase block systems (block size 2..4, 2..14 cells, optional unstructured tail with active_rows) for cpr / cpr_drs with identity, SPAI-0 and exact global stage, thresholds and weights; 40..96-cell systems with random eps_dd / eps_ps and missing in-cell pressure couplings for the dense dynamic-row-sum rule, each built with 1, 4 and 8 threads; 5-point / 9-point / 7-point diffusion and upwind convection-diffusion (200..1500 unknowns) with 1..5 deflation vectors for deflated_solver with AMG, SPAI-0 and identity preconditioners and CG / BiCGStab. Every case is non-trivial (np, nu > 0; at least two cells); distinct = distinct (sub-check, descriptor) hash.',
     min_nontrivial=dict(quick=1200, thorough=10000),
     assumptions=COMMON_ASSUME + ['the harness-side exact inner solvers (dense long double LU) are trusted'],
-    technique='recording / exact harness-side inner components + dense long-double block formulas; operators extracted on unit vectors; friend accessor for the transfer operators; plain -O2 (1 and 4 threads) and ASan/UBSan',
+    technique='recording / exact harness-side inner components + dense long-double block formulas; operators extracted on unit vectors; friend accessor for the transfer operators; plain -O2 (1, 4 and 8 threads, plus in-process 1/4/8-thread builds of cpr_drs) and ASan/UBSan',
     level_text='schur_pressure_correction, cpr, cpr_drs and deflated_solver are instantiated with exact, recording inner components; their actions, the sub-matrices they build and their transfer operators are compared with the dense formulas of the documentation on seeded saddle-point, multi-phase and diffusion systems. Held means no observed configuration deviated from its formula beyond the stated rounding bound.',
     level_note='inner solves are exact by construction, so the statements are about the composition, not about convergence with real inner solvers; only the builtin backend; matrices up to 40 (composites) / 1500 (deflation) unknowns')
